@@ -1109,6 +1109,16 @@ def run_dcase(case):
                 e = _build_path(cx, op[1])
                 setattr(Legacy, nm, pprop(e, lambda self: self._d))
                 setattr(Legacy, "m" + nm, mprop(e, lambda self: self._d))
+        elif op[0] in ('cpread', 'cmread', 'cpwrite'):
+            key = repr((op[1], op[2]))
+            if key not in legacy_paths:
+                nm = "cp%d" % len(legacy_paths)
+                legacy_paths[key] = nm
+                source = mprop(_build_path(cx, op[1]), lambda self: self._d)
+                setattr(Legacy, "s" + nm, source)
+                e2 = _build_path(cx, op[2])
+                setattr(Legacy, nm, pprop(e2, source))
+                setattr(Legacy, "m" + nm, mprop(e2, source))
     legacy = Legacy(doc)
 
     out = [snapshot(cx, doc)]
@@ -1204,6 +1214,22 @@ def run_dcase(case):
 
             def th():
                 setattr(legacy, nm, op[2])
+            ob = status("set", th)
+        elif k in ('cpread', 'cmread'):
+            nm = legacy_paths[repr((op[1], op[2]))]
+
+            def th():
+                if k == 'cpread':
+                    return ON("got", [lval(cx, getattr(legacy, nm))])
+                m = getattr(legacy, "m" + nm)
+                return ON("got", [lval(cx, m.data if m is not None else None)])
+            ob = status("get", th, True)
+        elif k == 'cpwrite':
+            nm = legacy_paths[repr((op[1], op[2]))]
+            vcounter = label_value(cx, op[3], vcounter)
+
+            def th():
+                setattr(legacy, nm, op[3])
             ob = status("set", th)
         else:
             raise ValueError(k)
